@@ -679,7 +679,9 @@ impl Property for C17 {
             _ => None,
         };
         if !tool_path(tool).exists() {
-            panic!("{} is not built (./check --build)", tool_path(tool).display());
+            // an infrastructure error, not a verdict about the tools
+            eprintln!("INCONCLUSIVE: {} is not built (./check --build)", tool_path(tool).display());
+            std::process::exit(2);
         }
         let out = match run_tool(tool, &args, stdin) {
             Ok(o) => o,
